@@ -175,6 +175,8 @@ class MiniTask(MiniFuture):
             self._done = True
             self._fire()
             return
+        except HarnessError:
+            raise
         except _real_asyncio.CancelledError as e:
             self._exc = e
             self._cancelled = True
@@ -382,6 +384,8 @@ def drive(coro):
         coro.send(None)
     except StopIteration as s:
         return s.value, None
+    except HarnessError:
+        raise
     except Exception as e:  # noqa: BLE001
         return None, e
     raise HarnessError("coroutine suspended in drive()")
